@@ -215,19 +215,31 @@ Qed.
 
 Lemma concat_flat_lines_W (ls : list bytes) :
   concat ls = wbytes (map (fun l => W ([] ++ l)) ls).
-Proof. induction ls; simpl; congruence. Qed.
+Proof. induction ls as [|a ls IH]; simpl in *; [reflexivity | rewrite <- IH; reflexivity]. Qed.
+
+Lemma prepend_plain (ff df : bytes) (f d : bool) (ls : list bytes) :
+  peq (flat_map (fun l => (if f then [W ff] else []) ++ (if d then [W df] else []) ++ [W l]) ls ++ [F])
+      (map (fun l => W (((if f then ff else []) ++ (if d then df else [])) ++ l)) ls).
+Proof.
+  apply peq_no_C.
+  - rewrite no_C_app; apply andb_true_intro; split; [|reflexivity].
+    apply no_C_flat_map; intro. destruct f, d; reflexivity.
+  - apply no_C_map_Wf.
+  - rewrite wbytes_app; simpl; rewrite app_nil_r. apply data_plain_prepend.
+Qed.
 
 Lemma evtx_plain o m : o_colour o = false -> nl_split [] (m_data m) = flat_lines m ->
   peq (print_evtx o m) (decorate o m).
 Proof.
   intros Hc Hwf. unfold print_evtx, decorate, decorate_plain, prefix. rewrite Hc.
   destruct (o_file o) eqn:Ef, (o_date o) eqn:Ed;
-    try (unfold print_evtx_prepend; rewrite Hwf; apply peq_no_C;
-         [ rewrite no_C_app; apply andb_true_intro; split; [|reflexivity];
-           apply no_C_flat_map; intro; reflexivity
-         | apply no_C_map_Wf
-         | rewrite wbytes_app; simpl; rewrite app_nil_r;
-           apply (data_plain_prepend (o_ff o) (date_field o (m_t m))) ]).
+    [ unfold print_evtx_prepend; rewrite Hwf;
+      exact (prepend_plain (o_ff o) (date_field o (m_t m)) true true (flat_lines m))
+    | unfold print_evtx_prepend; rewrite Hwf;
+      exact (prepend_plain (o_ff o) (date_field o (m_t m)) true false (flat_lines m))
+    | unfold print_evtx_prepend; rewrite Hwf;
+      exact (prepend_plain (o_ff o) (date_field o (m_t m)) false true (flat_lines m))
+    | ].
   unfold print_evtx_. apply peq_no_C; [reflexivity | apply no_C_map_Wf |].
   simpl. rewrite app_nil_r. unfold m_data. apply concat_flat_lines_W.
 Qed.
@@ -237,12 +249,13 @@ Lemma journal_plain o m : o_colour o = false -> nl_split [] (m_data m) = flat_li
 Proof.
   intros Hc Hwf. unfold print_journalentry, decorate, decorate_plain, prefix. rewrite Hc.
   destruct (o_file o) eqn:Ef, (o_date o) eqn:Ed;
-    try (unfold print_journalentry_prepend; rewrite Hwf; apply peq_no_C;
-         [ rewrite no_C_app; apply andb_true_intro; split; [|reflexivity];
-           apply no_C_flat_map; intro; reflexivity
-         | apply no_C_map_Wf
-         | rewrite wbytes_app; simpl; rewrite app_nil_r;
-           apply (data_plain_prepend (o_ff o) (date_field o (m_t m))) ]).
+    [ unfold print_journalentry_prepend; rewrite Hwf;
+      exact (prepend_plain (o_ff o) (date_field o (m_t m)) true true (flat_lines m))
+    | unfold print_journalentry_prepend; rewrite Hwf;
+      exact (prepend_plain (o_ff o) (date_field o (m_t m)) true false (flat_lines m))
+    | unfold print_journalentry_prepend; rewrite Hwf;
+      exact (prepend_plain (o_ff o) (date_field o (m_t m)) false true (flat_lines m))
+    | ].
   unfold print_journalentry_. apply peq_no_C; [reflexivity | apply no_C_map_Wf |].
   simpl. rewrite app_nil_r. unfold m_data. apply concat_flat_lines_W.
 Qed.
@@ -261,14 +274,14 @@ Proof.
   intros Hc Hk [Hwf Hbe]. unfold print_sysline, decorate, decorate_colour, has_prefix, prefix, flat_lines.
   rewrite Hc, Hk. rewrite map_first_map.
   assert (Hin : forall x, In x (m_lines m) -> wf_line x) by (apply Forall_forall; exact Hwf).
-  destruct (o_file o), (o_date o); simpl orb; cbv iota.
-  - unfold print_sysline_prependfile_prependdate_color. simpl app at 3.
+  destruct (o_file o), (o_date o); simpl orb; cbv iota; rewrite ?app_nil_l.
+  - unfold print_sysline_prependfile_prependdate_color.
     apply peq_app; [|apply peq_refl]. apply peq_map_first. intros b x Hx.
     apply peq_app; [apply peq_by_norm; reflexivity|]. apply color_body_peq; auto.
-  - unfold print_sysline_prependfile_color. simpl app at 3.
+  - unfold print_sysline_prependfile_color.
     apply peq_app; [|apply peq_refl]. apply peq_map_first. intros b x Hx.
     apply peq_app; [apply peq_by_norm; simpl; rewrite app_nil_r; reflexivity|]. apply color_body_peq; auto.
-  - unfold print_sysline_prependdate_color. simpl app at 3.
+  - unfold print_sysline_prependdate_color.
     apply peq_app; [|apply peq_refl]. apply peq_map_first. intros b x Hx.
     apply peq_app; [apply peq_by_norm; reflexivity|]. apply color_body_peq; auto.
   - unfold print_sysline_color.
